@@ -681,6 +681,73 @@ def r20_4(rep: Report, cls: ast.ClassDef) -> None:
                              'bucket read from the cache is not the key that was cached', sub)
 
 
+def r20_7(rep: Report, cls: ast.ClassDef) -> None:
+    """a bucket is filled from the file position it stands for: every path of cache() to the read that
+    fills the bucket either passed `self.reader.seek(bucket + self.offset)` or implies that the
+    underlying reader already is there (`self.reader.tell() == bucket + self.offset`).  Any other
+    reason to skip the seek (remembered positions, flags) is a belief about the file position that a
+    cache hit, a seek of the window or another reader of the same file can falsify."""
+    from ..pathcond import PathCond, atoms_of, entails as pc_entails, f_not, show as pc_show, sym_values
+    rid = 'R20.7'
+    fn = need(find_func(cls, 'cache'), f'{BR}::BufferedReader.cache')
+    construct = f'{BR}::BufferedReader.cache'
+    bname = fn.args.args[1].arg
+    want = {bname: 1, 'self.offset': 1}
+
+    sym_upd, resolve = sym_values(subst_calls=False)
+
+    def upd(st, facts):
+        facts = set(sym_upd(st, frozenset(facts)))
+        for c in ast.walk(st) if not isinstance(st, (ast.If, ast.While, ast.For, ast.With, ast.Try)) else []:
+            if isinstance(c, ast.Call) and call_name(c) == 'self.reader.seek' and c.args:
+                whence = c.args[1] if len(c.args) > 1 else next((k.value for k in c.keywords if k.arg == 'whence'), None)
+                if lin(resolve((None, None, frozenset(facts)), c.args[0], calls=False)) == want and (whence is None or norm(whence).endswith('SEEK_SET')
+                                                                  or norm(whence) == '0'):
+                    facts.add('at-bucket')
+                else:
+                    facts.discard('at-bucket')
+            elif isinstance(c, ast.Call) and (call_name(c) or '').startswith('self.reader.') \
+                    and call_name(c) not in ('self.reader.tell',):
+                facts.discard('at-bucket')
+        return frozenset(facts)
+    verdicts = []
+
+    def on_stmt(st, states):
+        if isinstance(st, (ast.If, ast.While, ast.For, ast.With, ast.Try)):
+            return
+        if any(isinstance(c, ast.Call) and call_name(c) == 'self.reader.read' for c in ast.walk(st)):
+            for x in states:
+                goals = []
+                for t in atoms_of(x[0]):
+                    try:
+                        e = ast.parse(t, mode='eval').body
+                    except SyntaxError:
+                        continue
+                    if not (isinstance(e, ast.Compare) and len(e.ops) == 1 and isinstance(e.ops[0], (ast.Eq, ast.NotEq))):
+                        continue
+                    sides = [e.left, e.comparators[0]]
+                    tells = [i for i, sd in enumerate(sides) if isinstance(sd, ast.Call)
+                             and call_name(sd) == 'self.reader.tell']
+                    if len(tells) != 1:
+                        continue
+                    other = resolve(x, sides[1 - tells[0]], calls=False)
+                    if lin(other) == want:
+                        goals.append(('atom', t) if isinstance(e.ops[0], ast.Eq) else f_not(('atom', t)))
+                ok_ = 'at-bucket' in x[2] or any(pc_entails(x[0], g) is True for g in goals)
+                verdicts.append((ok_, pc_show(x[0]), st))
+    Flow(Disjunctive(PathCond(upd=upd), cap=256), on_stmt=on_stmt).run(fn, [PathCond.initial()])
+    if not verdicts:
+        raise AnalysisError('cache(): no bucket fill found')
+    badv = [v for v in verdicts if not v[0]]
+    if not badv:
+        rep.ok(rid, construct, 'fill reads at bucket + offset', f'{len(verdicts)} path(s) to the fill')
+    else:
+        rep.fail(rid, construct, 'fill reads at bucket + offset',
+                 f'the bucket is filled on a path that neither seeks the underlying reader to `{bname} + self.offset` '
+                 f'nor implies it already is there (path condition: {badv[0][1][:140]}): the bytes cached under this '
+                 'key can come from another part of the file', badv[0][2])
+
+
 def r20_5(rep: Report) -> None:
     rid = 'R20.5'
     n_sites = 0
@@ -721,15 +788,17 @@ def analyse(rep: Report) -> None:
         'conditions of C20 for all operation sequences; equivalence with BytesIO is not decided.')
     tree = rep.repo.tree(BR)
     cls = need(find_class(tree, 'BufferedReader'), f'{BR}::BufferedReader')
-    rep.rule('R20.1', 'positions exchanged with the underlying reader are window-translated', floor=5)
+    rep.rule('R20.1', 'positions exchanged with the underlying reader are window-translated', floor=4)
     rep.rule('R20.2', 'returned byte strings are bounded by the window when its size is known', floor=5)
     rep.rule('R20.3', 'seek clamps pos into [0, size]; read advances by the length returned', floor=4)
     rep.rule('R20.4', 'cache eviction/insertion keep the counter paired; bucket keys are aligned', floor=6)
     rep.rule('R20.6', 'the optional window size is tested with `is None`, never by truthiness', floor=3)
+    rep.rule('R20.7', 'a bucket is filled from the file position bucket + offset on every path', floor=1)
     rep.rule('R20.5', 'windowing call sites pass pos and size of one segment', floor=3)
     r20_1(rep, cls)
     r20_2(rep, cls)
     r20_3(rep, cls)
     r20_4(rep, cls)
     r20_6(rep, cls)
+    r20_7(rep, cls)
     r20_5(rep)
